@@ -12,12 +12,13 @@ func sp(s string) *string   { return &s }
 func u32p(v uint32) *uint32 { return &v }
 
 var jsonBodies = []string{`{"a":2}`, `{"a":0,"b":3}`, `{"a":1}`, `{"a":1,"b":{"c":2}}`, `{"n":null,"s":"x"}`, `{}`, `12`, `"str"`, `[1,2]`, `null`,
-	`{"a":{"z":[1]},"b":true}`, `{"b":{"c":{"d":5}},"q":"w"}`, `{"a":1,"zz":"0123456789012345678901234567890123456789"}`}
+	`{"a":{"z":[1]},"b":true}`, `{"b":{"c":{"d":5}},"q":"w"}`, `{"a":1,"zz":"0123456789012345678901234567890123456789"}`,
+	`{"s":"apple"}`, `{"s":"Banana","a":2}`, `{"s":"banana"}`, `{"s":"Apple1"}`, `{"s":"apple"}`}
 var rawBodies = []string{`raw1`, `{notjson`, `7`, `{"a":1}`, `x y z`, ``}
 var xattrVals = []string{`{"rev":"1-a"}`, `{"cas":"x","n":{"m":1}}`, `"s"`, `5`, `[1]`, `true`, `{"b":2,"a":1}`, `{}`}
 var badXattrVals = []string{`{bad`, ``}
 var macroPaths = []string{"_sync.cas", "_sync.n.crc", "u1.cas", "_vv.x", "_sync.rev", "u2.n.deep"}
-var subdocPaths = []string{"a", "b.c", "x.y", "a.z", "n", "b", "b.c.d", "q", "new", "n.x", "s.y", "b.c.d.e"}
+var subdocPaths = []string{"a", "b.c", "x.y", "a.z", "n", "b", "b.c.d", "q", "new", "n.x", "s.y", "b.c.d.e", "a.", ".a", "b..c"}
 var subdocVals = []string{`1`, `"v"`, `{"k":true}`, `null`, ``, `[1]`}
 var farExps = []uint32{4000000000, 4000000001, 4100000000, 3900000000}
 var pastExps = []uint32{1000000000, 1500000000, 1000000001}
@@ -247,7 +248,7 @@ func genKOp(r *rand.Rand) *KOp {
 			if r.Intn(3) == 0 {
 				cb.NewExp = u32p(genExp(r))
 			}
-			return &KOp{Kind: "WriteUpdateWithXattrs", Cb: cb, Macros: genMacros(r)}
+			return &KOp{Kind: "WriteUpdateWithXattrs", Cb: cb, Macros: genMacros(r), Preserve: r.Intn(3) == 0}
 		}},
 		{5, func() *KOp {
 			o := &KOp{Kind: "WriteSubDoc", Path: pick(r, subdocPaths), CasMode: pick(r, []string{"zero", "zero", "current", "stale"}), Val: sp(pick(r, subdocVals))}
@@ -350,7 +351,7 @@ func genKv(r *rand.Rand, tier string) kvInput {
 		}
 		switch x := r.Intn(60); {
 		case x == 0 || x == 10:
-			in.Ops = append(in.Ops, Step{Kind: "purge", Handle: r.Intn(in.Handles), Clock: next()})
+			in.Ops = append(in.Ops, Step{Kind: "purge", Handle: r.Intn(in.Handles), Fresh: r.Intn(2) == 0, Clock: next()})
 		case x == 1 && exists["s1.c2"]:
 			in.Ops = append(in.Ops, Step{Kind: "drop", Coll: "s1.c2", Handle: r.Intn(in.Handles), Clock: next()})
 			exists["s1.c2"] = false
@@ -558,7 +559,7 @@ func genMotif(r *rand.Rand, m int, in *kvInput, exists map[string]bool, hot []st
 		kv(inserter())
 		if r.Intn(2) == 0 {
 			// purge after the re-creation: only what is still a tombstone may go
-			in.Ops = append(in.Ops, Step{Kind: "purge", Handle: h, Clock: next()})
+			in.Ops = append(in.Ops, Step{Kind: "purge", Handle: h, Fresh: r.Intn(2) == 0, Clock: next()})
 		}
 		kv(inserter())
 		kv(read())
@@ -720,7 +721,7 @@ func genMotif(r *rand.Rand, m int, in *kvInput, exists map[string]bool, hot []st
 func genViewParams(r *rand.Rand) *ViewParams {
 	vp := &ViewParams{}
 	// mostly keys that the map functions emit for the documents of the universe, so that bounds fall ON rows
-	keys := []string{`1`, `2`, `0`, `"k1"`, `"k2"`, `"k3"`, `"k2"`, `1`, `[1,"k2"]`, `[1]`, `[2,1]`, `[1,1]`, `[0,"k1"]`, `[2,"k3"]`}
+	keys := []string{`1`, `2`, `0`, `"k1"`, `"k2"`, `"k3"`, `"k2"`, `1`, `[1,"k2"]`, `[1]`, `[2,1]`, `[1,1]`, `[0,"k1"]`, `[2,"k3"]`, `"apple"`, `"Banana"`, `"b"`}
 	if r.Intn(4) == 0 {
 		return vp
 	}
